@@ -8,6 +8,7 @@ package main
 // those waits.
 
 import (
+	"bytes"
 	"context"
 	"encoding/binary"
 	"errors"
@@ -68,6 +69,26 @@ func (c *adminConn) QueueRPC(call hrpc.Call) {
 			msg = &pb.EnableTableResponse{ProcId: proto.Uint64(7)}
 		case "DisableTable":
 			msg = &pb.DisableTableResponse{ProcId: proto.Uint64(7)}
+		case "Snapshot":
+			msg = &pb.SnapshotResponse{ExpectedTimeout: proto.Int64(1000)}
+		case "DeleteSnapshot":
+			msg = &pb.DeleteSnapshotResponse{}
+		case "RestoreSnapshot":
+			msg = &pb.RestoreSnapshotResponse{}
+		case "GetCompletedSnapshots":
+			msg = &pb.GetCompletedSnapshotsResponse{}
+		case "GetTableNames":
+			msg = &pb.GetTableNamesResponse{}
+		case "SetBalancerRunning":
+			msg = &pb.SetBalancerRunningResponse{PrevBalanceValue: proto.Bool(true)}
+		case "IsSnapshotDone":
+			// the completion check of CreateSnapshot: a poll like the procedure-state one
+			atomic.AddInt32(&c.a.polls, 1)
+			if c.a.pollSilent {
+				return
+			}
+			call.ResultChan() <- hrpc.RPCResult{Msg: &pb.IsSnapshotDoneResponse{Done: proto.Bool(c.a.finishAt > 0)}}
+			return
 		case "getProcedureResult":
 			n := int(atomic.AddInt32(&c.a.polls, 1))
 			if c.a.onPoll != nil {
@@ -116,8 +137,28 @@ func adminCall(v *gohbase.VerifClient, api string, ctx context.Context) error {
 		return v.C.DeleteTable(hrpc.NewDeleteTable(ctx, []byte("t")))
 	case "enabletable":
 		return v.C.EnableTable(hrpc.NewEnableTable(ctx, []byte("t")))
-	default:
+	case "disabletable":
 		return v.C.DisableTable(hrpc.NewDisableTable(ctx, []byte("t")))
+	case "createsnapshot":
+		sn, _ := hrpc.NewSnapshot(ctx, "s", "t")
+		return v.C.CreateSnapshot(sn)
+	case "deletesnapshot":
+		sn, _ := hrpc.NewSnapshot(ctx, "s", "t")
+		return v.C.DeleteSnapshot(sn)
+	case "restoresnapshot":
+		sn, _ := hrpc.NewSnapshot(ctx, "s", "t")
+		return v.C.RestoreSnapshot(sn)
+	case "listsnapshots":
+		_, err := v.C.ListSnapshots(hrpc.NewListSnapshots(ctx))
+		return err
+	case "listtables":
+		l, _ := hrpc.NewListTableNames(ctx)
+		_, err := v.C.ListTableNames(l)
+		return err
+	default:
+		b, _ := hrpc.NewSetBalancer(ctx, true)
+		_, err := v.C.SetBalancer(b)
+		return err
 	}
 }
 
@@ -139,6 +180,9 @@ func adminWaitScenario(state, api, mode string) string {
 		gohbase.RegionLookupTimeout(3*time.Second), gohbase.RegionReadTimeout(3*time.Second))
 	defer v.Client().Close()
 	wait := 60 * time.Millisecond
+	if api == "createsnapshot" && strings.HasPrefix(state, "admin-poll") {
+		wait = 650 * time.Millisecond // the first completion check goes out after half a second
+	}
 	ctx, cancel := context.WithCancel(context.Background())
 	if mode == "deadline" {
 		ctx, cancel = context.WithTimeout(context.Background(), wait)
@@ -173,6 +217,15 @@ func adminWaitScenario(state, api, mode string) string {
 func adminWaitJobs(tier string) []func() string {
 	var jobs []func() string
 	apis := []string{"createtable", "deletetable", "enabletable", "disabletable"}
+	// the calls without a completion wait: only the master lookup and the request itself
+	for _, api := range []string{"deletesnapshot", "restoresnapshot", "listsnapshots", "listtables", "setbalancer"} {
+		for k, state := range []string{"admin-master-lookup", "admin-request-silent"} {
+			api, state := api, state
+			mode := []string{"cancel", "deadline"}[(len(api)+k)%2]
+			jobs = append(jobs, func() string { return adminWaitScenario(state, api, mode) })
+		}
+	}
+	apis = append(apis, "createsnapshot")
 	for i, state := range []string{"admin-master-lookup", "admin-request-silent", "admin-poll-silent", "admin-poll-running"} {
 		for j, api := range apis {
 			for k, mode := range []string{"cancel", "deadline"} {
@@ -424,6 +477,75 @@ func apiResultsScenario(rng *RNG) string {
 		verdict = fmt.Sprintf("%d-answered-calls-failed", failed)
 	}
 	return "sim check increment-result-is-the-servers-answer " + verdict
+}
+
+// apiGetResultsScenario (C02, at the API): concurrent Gets of rows whose answer is a function of
+// the row — cells or none, the exists and stale flags true, false or absent; every caller must be
+// handed that very result (a flag the server sent as false is not the same as one it did not send).
+func apiGetResultsScenario(rng *RNG) string {
+	setSleepOverride(fastBackoff)
+	defer setSleepOverride(nil)
+	c := buildCluster(rng)
+	sc := newSimClient(c)
+	defer sc.cl.Close()
+	var wrong, failed int32
+	var first atomic.Value
+	optB := func(b *bool) string {
+		if b == nil {
+			return "_"
+		}
+		if *b {
+			return "1"
+		}
+		return "0"
+	}
+	// the caller's Stale is a plain bool: absent and false are the same to it
+	staleOf := func(b *bool) string {
+		if b != nil && *b {
+			return "1"
+		}
+		return "0"
+	}
+	var wg sync.WaitGroup
+	for g := 0; g < 6; g++ {
+		g := g
+		wg.Add(1)
+		go func() {
+			defer wg.Done()
+			for i := 0; i < 40; i++ {
+				key := []byte(fmt.Sprintf("api-%c-%d-%d", 'a'+byte((g*3+i)%26), g, i))
+				ctx, cancel := context.WithTimeout(context.Background(), 5*time.Second)
+				get, _ := hrpc.NewGet(ctx, []byte("t"), key)
+				res, err := sc.cl.Get(get)
+				cancel()
+				if err != nil || res == nil {
+					atomic.AddInt32(&failed, 1)
+					continue
+				}
+				want := simGetResult(key)
+				got := optB(res.Exists) + staleOf(&res.Stale) + fmt.Sprint(len(res.Cells))
+				exp := optB(want.Exists) + staleOf(want.Stale) + fmt.Sprint(len(want.Cell))
+				for j := 0; got == exp && j < len(res.Cells); j++ {
+					if !bytes.Equal(res.Cells[j].Value, want.Cell[j].Value) || !bytes.Equal(res.Cells[j].Qualifier, want.Cell[j].Qualifier) {
+						got += "/cell-differs"
+					}
+				}
+				if got != exp {
+					if atomic.AddInt32(&wrong, 1) == 1 {
+						first.Store("server-" + exp + "-caller-" + got)
+					}
+				}
+			}
+		}()
+	}
+	wg.Wait()
+	verdict := "ok"
+	if wrong > 0 {
+		verdict = fmt.Sprintf("%d-differ-first-%s", wrong, first.Load())
+	} else if failed > 0 {
+		verdict = fmt.Sprintf("%d-answered-calls-failed", failed)
+	}
+	return "sim check get-result-is-the-servers-answer " + verdict
 }
 
 // adminPollRateScenario (C17): a procedure that stays RUNNING: the state polls of an admin call are
